@@ -438,6 +438,9 @@ func examine(c *core.Ctx, spec gens.JPExpr, x jp.Expr, t *tree, o *only) (out []
 	}
 	e.gs, e.gsc = g.vals, g.vals
 	for _, r := range t.reprs {
+		if r.Name == "embstruct" && !nameLookupOnly(spec) {
+			continue // promoted fields are a matter of lookup by name; what a wildcard, descent or filter sees of an embedded struct is not fixed
+		}
 		if o.wantsRepr(r.Name) {
 			e.repr(r)
 		}
@@ -755,6 +758,16 @@ func hangProbe(c *core.Ctx, reportIt bool) {
 // ------------------------------------------------------------------ shrinking and classification
 
 var subtrees = map[string]*tree{}
+
+// nameLookupOnly: the path consists of child, index and union fragments.
+func nameLookupOnly(spec gens.JPExpr) bool {
+	for _, f := range spec[1:] {
+		if f.K != "child" && f.K != "nth" && f.K != "union" {
+			return false
+		}
+	}
+	return true
+}
 
 func subtree(v any) *tree {
 	k := gens.Show(v)
